@@ -531,7 +531,7 @@ Proof.
     destruct Wk as (pre & E & P). rewrite suf_zero, app_nil_r in E by exact W.
     intros x Ix. apply P. rewrite <- E. exact Ix.
   - apply N.eqb_neq in Q0.
-    destruct ((t_map t / UNIT <? n) || (off <? H + c_hashOff) || (t_map t <? off + 16)).
+    destruct ((t_map t / UNIT <? n) || (off <? H + c_hashOff) || negb (off mod 8 =? 0) || (t_map t <? off + 16)).
     + apply look_fail_tinv; auto.
     + destruct B as (M0 & M1 & S & Bg). unfold tinv, pc_inv; cbn. splits; auto.
       destruct Io; [contradiction|assumption].
@@ -550,9 +550,9 @@ Proof.
     unfold tinv, pc_inv; cbn. splits; auto.
     destruct Wk as (pre & E & P). intros x Ix. rewrite E in Ix. apply in_app_iff in Ix.
     destruct Ix as [Ix|Ix]; [apply P; exact Ix|apply Fo; exact Ix].
-  - destruct ((off <? H + c_hashOff) || (t_map t <? off + 16)) eqn:G.
+  - destruct ((off <? H + c_hashOff) || negb (off mod 8 =? 0) || (t_map t <? off + 16)) eqn:G.
     + apply ret_fail_tinv; exact B.
-    + apply orb_false_iff in G. destruct G as [G _]. apply N.ltb_ge in G.
+    + apply orb_false_iff in G. destruct G as [G _]. apply orb_false_iff in G. destruct G as [G _]. apply N.ltb_ge in G.
       destruct B as (M0 & M1 & S & Bg). unfold tinv, pc_inv; cbn. splits; auto.
       destruct Iof as [->|I]; [unfold_consts; lia|exact I].
 Qed.
